@@ -46,6 +46,10 @@ pub struct LifeDesc {
     pub setup: Vec<LifeOp>,
     pub threads: Vec<Vec<LifeOp>>,
     pub teardown_seed: u64,
+    /// (thread, operation index, k): that operation runs single-stepped and is preempted after
+    /// exactly k instructions of code under test
+    #[serde(default)]
+    pub fine: Option<(usize, usize, u64)>,
     #[serde(default)]
     pub schedule: Option<Vec<u8>>,
 }
@@ -974,6 +978,23 @@ pub fn generate(run_seed: u64, thorough: bool) -> LifeDesc {
     }
     let mut sr = Rng::new(rng::derive(run_seed, &[rng::label("strategy")]));
     let strategy = crate::scen_list::pick_strategy(&mut sr, 4000);
+    // one run in three: one clone/drop/call operation gets an instruction-level preemption
+    let mut fr = Rng::new(rng::derive(run_seed, &[rng::label("fine")]));
+    let mut fine = None;
+    if nthreads > 1 && fr.chance(1, 3) {
+        let cands: Vec<(usize, usize)> = threads
+            .iter()
+            .enumerate()
+            .flat_map(|(t, ops)| ops.iter().enumerate().filter(|(_, o)| matches!(o, LifeOp::DropHandle { .. } | LifeOp::DropPackage { .. } | LifeOp::DropRuntime { .. } | LifeOp::CloneHandle { .. } | LifeOp::CloneRuntime { .. } | LifeOp::Call { .. })).map(move |(i, _)| (t, i)))
+            .collect();
+        if !cands.is_empty() {
+            let (t, i) = *fr.pick(&cands);
+            // log-uniform in 1..=4096
+            let bits = fr.below(13);
+            let k = (1u64 << bits) + fr.below(1u64 << bits);
+            fine = Some((t, i, k));
+        }
+    }
     LifeDesc {
         property: "C11".into(),
         scenario: "lifecycle".into(),
@@ -983,6 +1004,7 @@ pub fn generate(run_seed: u64, thorough: bool) -> LifeDesc {
         setup,
         threads,
         teardown_seed: rng::derive(run_seed, &[rng::label("teardown")]),
+        fine,
         schedule: None,
     }
 }
@@ -1041,14 +1063,19 @@ pub fn execute(d: &LifeDesc, keep_trace: bool) -> RunResult {
         }
     }
     if !viol::any() && !single {
+        let fine = d.fine;
         let bodies: Vec<sched::Body> = d
             .threads
             .iter()
-            .map(|ops| {
+            .enumerate()
+            .map(|(t, ops)| {
                 let ops = ops.clone();
                 Box::new(move || {
-                    for op in &ops {
-                        exec(op);
+                    for (i, op) in ops.iter().enumerate() {
+                        match fine {
+                            Some((ft, fi, k)) if ft == t && fi == i => sched::fine_window(k, || exec(op)),
+                            _ => exec(op),
+                        }
                         if viol::any() {
                             break;
                         }
@@ -1162,6 +1189,9 @@ pub fn execute(d: &LifeDesc, keep_trace: bool) -> RunResult {
     c.insert(format!("strategy_{}", d.strategy.split('/').next().unwrap_or("")), 1);
     c.insert("ops".into(), (d.setup.len() + d.threads.iter().map(|t| t.len()).sum::<usize>()) as u64);
     c.insert("ops_executed".into(), P_EXECUTED.load(SeqCst));
+    c.insert("fine_window_configured".into(), d.fine.is_some() as u64);
+    c.insert("fine_window_preemptions_fired".into(), sched::FINE_FIRED.load(SeqCst));
+    c.insert("fine_window_instructions_stepped".into(), sched::FINE_STEPS.load(SeqCst));
     if single {
         c.insert("degraded_to_single_thread_objects_not_send_sync".into(), 1);
     }
